@@ -26,6 +26,20 @@ def roundHalfEven (q : Rat) : Int :=
   else if 1 / 2 < q - q.floor then q.floor + 1
   else if q.floor % 2 = 0 then q.floor else q.floor + 1
 
+/-! ### which (centre fraction, acceleration) pair a call uses (`BaseMaskFunc.choose_acceleration`) -/
+
+/-- `uniform_range=True` is not implemented (the call raises); otherwise the drawn index
+`choice = rng.randint(0, len(accelerations))` selects the acceleration **and** the centre fraction
+of the same position -/
+def chooseAcceleration (uniformRange : Bool) (accs cfs : List Rat) (choice : Nat) : Except String (Rat × Rat) :=
+  if uniformRange then .error "NotImplementedError" else
+  match cfs[choice]?, accs[choice]? with
+  | some c, some r => .ok (c, r)
+  | _, _ => .error "IndexError"
+
+/-- `num_low_freqs = int(round(num_cols * center_fraction))` -/
+def numLowFreqs (N : Int) (cf : Rat) : Int := roundHalfEven ((N : Rat) * cf)
+
 /-! ### ACS block of the line masks (`center_mask_func`) -/
 
 /-- `pad = (num_cols - num_low_freqs + 1) // 2` -/
@@ -151,6 +165,17 @@ def expectedGaussianLoops : List (String × String × String × String × String
    "mask[ind] = 1 ; count = count + 1"),
   ("gaussian_mask_2d", "count = 0", "while count <= nonzero_count:",
    "if 0 <= indx < nrow and 0 <= indy < ncol and mask[indx, indy] != 1:", "mask[indx, indy] = 1 ; count = count + 1")]
+
+/-- `BaseMaskFunc.choose_acceleration` -/
+def expectedChooseSkeleton : List String := [
+  "if:notself.accelerations",
+  "if:notself.uniform_range",
+  "choice=self.rng.randint(0,len(self.accelerations))",
+  "acceleration=self.accelerations[choice]",
+  "if:self.center_fractionsisNone",
+  "center_fraction=self.center_fractions[choice]",
+  "return:(center_fraction,acceleration)",
+  "raise:NotImplementedError"]
 
 /-- `VariableDensityPoissonMaskFunc.poisson`: loop, the two `break`s, the interval update, the final check — `bisect` -/
 def expectedPoissonSkeleton : List String := [
